@@ -22,6 +22,8 @@ Decode(t) == CASE t = "%2e%2e" -> <<"..">>
                [] t = "sub%2f.." -> <<"sub", "..">>
                [] t = "..%2fsecret.txt" -> <<"..", "secret.txt">>
                [] t = "..%2f..%2fsecret.css" -> <<"..", "..", "secret.css">>
+               [] t = "%252e%252e" -> <<"%2e%2e">>                    \* doubly encoded: ONE decoding leaves a harmless literal name
+               [] t = "%252e%252e%252fsecret.txt" -> <<"%2e%2e%2fsecret.txt">>
                [] OTHER -> <<t>>
 Decoded(segs) == FlattenSeq([i \in 1..Len(segs) |-> Decode(segs[i])])
 
@@ -29,7 +31,8 @@ Decoded(segs) == FlattenSeq([i \in 1..Len(segs) |-> Decode(segs[i])])
 Tree == [p \in { <<>>, <<"a.txt">>, <<"a.css">>, <<"index.html">>, <<"sub">>, <<"sub", "b.js">> } |->
            IF p \in { <<>>, <<"sub">> } THEN "dir" ELSE "file"]
 \* files that exist OUTSIDE the root, addressed relative to the root with leading ".."
-Outside == { <<"..", "secret.txt">>, <<"..", "secret.css">> }
+\* (root-internal is a sibling directory whose name starts with the root's name)
+Outside == { <<"..", "secret.txt">>, <<"..", "secret.css">>, <<"..", "root-internal", "key.css">> }
 
 \* path.Clean on a rooted path: '.' and '' vanish, '..' pops but never above the root
 RECURSIVE CleanFrom(_, _, _)
@@ -50,7 +53,7 @@ WalkFrom(segs, i, acc) ==
                              ELSE Append(acc, s))
 Resolve(segs) == IF D_NoClean THEN WalkFrom(segs, 1, <<>>) ELSE Clean(segs)
 
-ExtOf(name) == CASE name \in {"a.txt", "secret.txt"} -> "txt" [] name \in {"a.css", "secret.css"} -> "css"
+ExtOf(name) == CASE name \in {"a.txt", "secret.txt"} -> "txt" [] name \in {"a.css", "secret.css", "key.css"} -> "css"
                  [] name = "b.js" -> "js" [] name = "index.html" -> "html" [] OTHER -> ""
 \* the request path rux matches is normalised (trailing slashes dropped): the last non-empty decoded segment counts
 LastName(segs) == LET ne == SelectSeq(segs, LAMBDA s : s # "") IN IF ne = <<>> THEN "" ELSE ne[Len(ne)]
